@@ -75,7 +75,10 @@ def run(tier, seed, workers=None):
              'performs remote-mutating operations (git push, comment, PR '
              'creation, decline): one run per crash boundary (operation i and '
              'all later ones fail with a BaseException) and one run per '
-             'single ref rejected by a real update hook; after each: all-or-'
+             'single ref rejected by a real update hook and one run per '
+             'command talking to the remote (clone, fetch, push, remote '
+             'update, ls-remote) failing with a non-zero exit; after each: '
+             'all-or-'
              'none of every user commit over the targets + inclusion chain; '
              'then re-delivery to a fresh Bert-E (queue reset if it says the '
              'queues are out of order) and comparison of destination trees '
